@@ -83,21 +83,163 @@ def q_fixed(d):
             "expected": "every output is an integer multiple of the format step"}
   if clause in ("code", "nearest", "sat_lo", "sat_hi"):
     fmt = rep.get("format")
-    if fmt is None:
+    if fmt is None or "unit" not in fmt:
       return {"status": "unsupported", "detail": "no format in recipe"}
-    step, lo, hi, scale = F(fmt["step"]), int(fmt["lo"]), int(fmt["hi"]), F(fmt.get("scale", 1))
-    sx = F(fmt["surrogate_x"]) if "surrogate_x" in fmt else x
-    kq = y / (scale * step)
-    p = sx / step
-    obs.update({"step": str(step), "lo": lo, "hi": hi, "code": str(kq), "p": str(p)})
+    unit, lo, hi = F(fmt["unit"]), F(fmt["lo"]), F(fmt["hi"])
+    sur = fmt.get("surrogate", "identity")
+    exact = True
+    if sur == "identity":
+      sx = x
+    elif sur.startswith("leaky:"):
+      sl = Fraction(float(sur.split(":")[1]))
+      sx = x if x >= 0 else sl * x
+    elif sur == "hard_sigmoid":
+      sx = min(max(Fraction(1, 2) * x + Fraction(1, 2), 0), 1)
+    elif sur == "hard_tanh":
+      sx = 2 * min(max(Fraction(1, 2) * x + Fraction(1, 2), 0), 1) - 1
+    else:
+      import math
+      exact = False
+      sx = Fraction(math.tanh(float(x))) if sur == "real_tanh" else Fraction(1 / (1 + math.exp(-float(x))))
+    kq = y / unit
+    p = sx / unit
+    obs.update({"unit": str(unit), "lo": str(lo), "hi": str(hi), "code": str(kq), "p": str(float(p))})
     bad = kq.denominator != 1 or not (lo <= kq <= hi)
+    tol = Fraction(0) if exact else Fraction(1, 1000)
     if not bad:
       if lo <= p <= hi:
-        bad = abs(kq - p) > Fraction(1, 2)
-      elif p < lo:
+        bad = abs(kq - p) > Fraction(1, 2) + tol
+      elif p < lo - tol:
         bad = kq != lo
-      else:
+      elif p > hi + tol:
         bad = kq != hi
     return {"status": "confirmed" if bad else "refuted", "observed": obs,
-            "expected": "q(x) = scale*step*k, k the integer code nearest to x/step clipped to [lo, hi]"}
+            "expected": "q(x) = unit*k, k the integer code nearest to surrogate(x)/unit clipped to [lo, hi]"}
   return {"status": "unsupported", "detail": "clause %s" % clause}
+
+
+@replayer("c07_mix")
+def c07_mix(d):
+  from qkeras import quantizers
+  w = d["witness"]
+  rep = w["__replay__"]
+  cls = getattr(quantizers, rep["class"])
+  bits, integer, f = int(rep["bits"]), int(rep["integer"]), float(F(rep["f"]))
+  x = f32(F(w.get("x", 0)))
+
+  def mk(ff):
+    kw = {"qnoise_factor": ff}
+    if rep["class"] != "quantized_linear":
+      kw["use_ste"] = bool(rep["use_ste"])
+    if rep["class"] in ("quantized_po2", "quantized_relu_po2"):
+      return cls(bits, **kw)
+    if rep.get("leaky"):
+      return cls(bits, integer, 0, 0.25, **kw)
+    return cls(bits, integer, **kw)
+  yf, y0, y1 = apply(mk(f), [x])[0], apply(mk(0.0), [x])[0], apply(mk(1.0), [x])[0]
+  obs = {"x": str(x), "f": f, "q_f": str(yf), "q_0": str(y0), "q_1": str(y1)}
+  if d["clause"] == "mix":
+    exp = y0 + Fraction(f) * (y1 - y0)
+    tol = Fraction(1, 2 ** 18) * max(1, abs(exp))
+    return {"status": "confirmed" if abs(yf - exp) > tol else "refuted", "observed": obs, "expected": "q_f = q_0 + f*(q_1 - q_0)"}
+  if d["clause"] == "f0":
+    sur = x
+    if rep["class"] == "quantized_relu":
+      n = bits - (1 if rep.get("leaky") else 0)
+      top = Fraction(2) ** integer - Fraction(2) ** (integer - n)
+      sur = top if x > top else (x if x >= 0 else (Fraction(1, 4) * x if rep.get("leaky") else 0))
+    return {"status": "confirmed" if y0 != f32(sur) else "refuted", "observed": obs, "expected": "q_0(x) = surrogate(x) = %s" % sur}
+  if d["clause"] == "f1":
+    # fully quantized value must be a code of the format nearest to the surrogate
+    n = bits - (1 if (rep.get("leaky") or rep["class"] in ("quantized_bits", "quantized_linear")) else 0)
+    unit = Fraction(2) ** (integer - n)
+    k = y1 / unit
+    sx = x if (x >= 0 or rep["class"] in ("quantized_bits", "quantized_linear")) else (Fraction(1, 4) * x if rep.get("leaky") else 0)
+    lo = 0 if rep["class"] == "quantized_relu" and not rep.get("leaky") else -(2 ** n)
+    if rep.get("leaky"):
+      lo = -(2 ** n) // 4
+    if rep["class"] == "quantized_linear":
+      lo = -(2 ** n) + 1
+    hi = 2 ** n - 1
+    p = sx / unit
+    tgt = min(max(p, lo), hi)
+    bad = k.denominator != 1 or abs(k - tgt) > Fraction(1, 2)
+    obs.update({"code": str(k), "p": str(p)})
+    return {"status": "confirmed" if bad else "refuted", "observed": obs, "expected": "q_1(x) is the nearest code"}
+  return {"status": "unsupported"}
+
+
+@replayer("c07_update")
+def c07_update(d):
+  from qkeras import quantizers
+  w = d["witness"]
+  rep = w["__replay__"]
+  cls = getattr(quantizers, rep["class"])
+  bits, integer, f, g = int(rep["bits"]), int(rep["integer"]), float(F(rep["f"])), float(F(rep["g"]))
+  x = f32(F(w.get("x", 0)))
+  args = (bits,) if "po2" in rep["class"] else (bits, integer)
+  q, ref = cls(*args, qnoise_factor=g), cls(*args, qnoise_factor=f)
+  mode = rep["mode"]
+  if mode == "float":
+    q.update_qnoise_factor(f)
+  elif mode == "var_build_then_update":
+    q.build(use_variables=True)
+    q.update_qnoise_factor(f)
+  elif mode == "var_update_then_build":
+    q.update_qnoise_factor(f)
+    q.build(use_variables=True)
+  else:
+    q.use_variables = True
+    q.update_qnoise_factor(f)
+  y, yr = apply(q, [x])[0], apply(ref, [x])[0]
+  return {"status": "confirmed" if y != yr else "refuted", "observed": {"x": str(x), "updated": str(y), "constructed": str(yr)},
+          "expected": "same output as a quantizer constructed with qnoise_factor=f"}
+
+
+@replayer("c07_sched")
+def c07_sched(d):
+  from qkeras import callbacks
+  w = d["witness"]
+  rep = w.get("__replay__") or {}
+  start, finish = int(w["start"]), int(w["finish"])
+  ex = float(F(w["exponent"]))
+  upd, init = int(w["update_freq"]), int(w["initial"])
+  if rep.get("what") == "calc":
+    sch = callbacks.QNoiseScheduler(start, finish, update_freq=upd, initial_step_or_epoch=init, exponent=ex)
+    a, b = int(w["freq"]), int(w["freq2"])
+    va, vb = float(sch.calculate_qnoise_factor(a)), float(sch.calculate_qnoise_factor(b))
+    c = d["clause"]
+    bad = {"before": a < start and va != 0.0, "after": a >= finish and va != 1.0,
+           "range": not (0.0 <= va <= 1.0), "mono": a <= b and va > vb}.get(c)
+    if bad is None:
+      return {"status": "unsupported"}
+    return {"status": "confirmed" if bad else "refuted", "observed": {"freq": a, "value": va, "freq2": b, "value2": vb}}
+  if rep.get("what") == "step":
+    sch = callbacks.QNoiseScheduler(start, finish, freq_type=rep["freq_type"], update_freq=upd,
+                                    initial_step_or_epoch=init, exponent=ex)
+
+    class StubQ(object):
+      def __init__(self):
+        self.qnoise_factor = 1.0
+        self.updates = []
+      def update_qnoise_factor(self, f):
+        self.updates.append(float(f))
+        self.qnoise_factor = f
+    qs = [StubQ(), StubQ()]
+    sch.quantizers = qs
+    n = int(w["n"])
+    import numpy as np
+    # replay the whole history from the start: n+1 calls of the hook
+    sch.qnoise_factor = 0.0
+    hist = []
+    for i in range(n + 1):
+      getattr(sch, rep["hook"])(0)
+      hist.append(float(sch.qnoise_factor))
+    active = (rep["freq_type"] == "epoch") == (rep["hook"] == "on_epoch_begin")
+    ok = all(a <= b for a, b in zip(hist, hist[1:])) and (int(sch.num_iters) == (n + 1 if active else 0))
+    if active:
+      for i in range(n + 1):
+        pass
+    return {"status": "refuted" if ok else "confirmed", "observed": {"history": hist, "num_iters": int(sch.num_iters)},
+            "expected": "factor non-decreasing and the step counter advanced once per call"}
+  return {"status": "unsupported"}
